@@ -868,7 +868,7 @@ func c02NameChecks(env *core.Env, tn string, in []fhir.Resource, names []string,
 	base := model.RenderPath(tn, namesToSteps(names))
 	bad := []string{"zzNotAField", "fooBar", "x9"}
 	// elements of other types
-	for _, cand := range []string{"birthDate", "valueQuantity", "given", "effective", "subject", "div", "coding", "family", "display", "type", "identifier", "system", "code", "unit", "text", "start", "end", "entry", "name", "status", "period", "meta", "versionId", "lastUpdated"} {
+	for _, cand := range []string{"birthDate", "valueQuantity", "given", "effective", "subject", "div", "coding", "family", "display", "type", "identifier", "system", "code", "unit", "text", "start", "end", "entry", "name", "status", "period", "meta", "versionId", "lastUpdated", "Observation", "Patient", "Location", "Resource", "Element", "Bundle"} {
 		if !hasElement(md, cand) {
 			bad = append(bad, cand)
 		}
